@@ -21,8 +21,10 @@ RULE = ("seeded random DSL programs: nesting depth<=3 of If/Elif/Else (multi-bit
         "non-trivial = accepted program whose observed trace is not constant; distinct by case hash")
 MODELLED = ("Module._pop_ctrl lowering of If/Switch (coq/Model/Dsl.v), _StatementCompiler/_LHSValueCompiler (Stmt.v), "
             "_FragmentCompiler comb/sync processes, LHSMaskCollector and slot update/commit (Process.v). The context-manager "
-            "bookkeeping of Module, pattern normalisation (_normalize_patterns) and FSM state encoding are exercised by the "
-            "differential run only")
+            "bookkeeping of Module and which domains get a Switch are exercised by the differential run only; the three "
+            "_pop_ctrl branches (If/Switch/FSM) and the FSM encoding allocation in State/next/ongoing are also regenerated "
+            "from hdl/_dsl.py (translator unit dsl, Gen/DslGen.v) and proved equal to Dsl.v (lower, lower_fsm, fsm_ref); "
+            "pattern normalisation of Case() is the _normalize_patterns model of C01 (unit derived)")
 ASSUMPTIONS = ["targets are linear (known finding F9 for aliased targets)", "designs have no combinational loops"]
 
 
